@@ -14,8 +14,8 @@
         of frame classes.  C04_traceback_user_only's first clause, clean Ordinary (Runner :: u) = u, is
         [reflexivity]: _remove_frame drops the head and nothing else applies.  Which raw shapes occur is
         an assumption, validated by the cases.v comparison with fmt_exc on every run;
-      - C04_interrupt_at_call_refuted: the shape of a Ctrl-C during a CALL trace call is not cleaned
-        (known finding);
+      - C04_interrupt_at_call: the shape of a Ctrl-C during a CALL trace call (global_.py, pluggy and local_.py frames
+        between the user's frames and WithContext) is cleaned to the user prefix as well;
       - C04_prompts_prefix_monotone: the debugger model is a transducer over a stream fixed in advance.
         This is prefix-monotonicity of a fold for ONE policy -- true of any transducer.  It does NOT
         prove that the script's behaviour is independent of the commands; it only makes the modelling
@@ -47,17 +47,14 @@ Theorem C04_no_nextline_frames :
      existsb nextline_frame (clean KbdInterrupt (raw_kbd (f :: u) inner)) = false).
 Proof. exact (conj no_nextline_ordinary no_nextline_kbd). Qed.
 
-(** REFUTED for a Ctrl-C that arrives while the prompt of a CALL event is open: a call event reaches
-    WithContext through the global trace function (global_.py -> pluggy -> local_.py), those frames lie
-    between the user's frames and the first WithContext frame and survive the cut.  The KeyboardInterrupt
-    clauses above are therefore PARTIAL: hypothesis added = the trace call is a line/return/exception event
-    (raw_kbd: WithContext's frame directly below the user's). *)
-Definition raw_kbd_call (u mid inner : tb) : tb := Runner :: u ++ mid ++ WithContextM :: inner.
-
-Theorem C04_interrupt_at_call_refuted :
-  exists u mid inner, forallb user_frame u = true /\
-    existsb nextline_frame (clean KbdInterrupt (raw_kbd_call u mid inner)) = true.
-Proof. exists [User; User], [Plugin; Plugin; Plugin], [Plugin; Lib]. vm_compute. auto. Qed.
+(** Ctrl-C while the prompt of a CALL event is open (repaired in /repo, was a known finding): a call event reaches
+    WithContext through the global trace function (global_.py -> pluggy -> local_.py); the cleaner cuts at the first
+    frame of global_.py or of WithContext's module, so the frames in between go too: the user prefix remains *)
+Theorem C04_interrupt_at_call : forall f u mid inner,
+  forallb user_frame (f :: u) = true ->
+  clean KbdInterrupt (raw_kbd_call (f :: u) mid inner) = f :: u /\
+  existsb nextline_frame (clean KbdInterrupt (raw_kbd_call (f :: u) mid inner)) = false.
+Proof. intros f u mid inner H. split; [apply clean_kbd_call_user_prefix | apply no_nextline_kbd_call]; exact H. Qed.
 
 (** prefix-monotonicity (one policy): what was prompted for [evs] is unchanged when the stream goes on *)
 Theorem C04_prompts_prefix_monotone : forall c pol evs later,
@@ -70,6 +67,7 @@ Example C04_example_nonvacuous :
   clean Ordinary (raw_ordinary [User; Lib; User]) = [User; Lib; User] /\
   clean SyntaxErr (raw_syntax [Plugin; Plugin] [Compose]) = [] /\
   clean KbdInterrupt (raw_kbd [User; User] [Plugin; Plugin; Lib]) = [User; User] /\
+  clean KbdInterrupt (raw_kbd_call [User; User] [Plugin; Plugin; Plugin] [Plugin; Lib]) = [User; User] /\
   clean SyntaxErr (raw_ordinary [User; User]) = [User; User].
 Proof. vm_compute. repeat split; reflexivity. Qed.
 
@@ -77,4 +75,4 @@ Print Assumptions C04_traceback_user_only.
 Print Assumptions C04_no_nextline_frames.
 Print Assumptions C04_runtime_exception_any_class.
 Print Assumptions C04_prompts_prefix_monotone.
-Print Assumptions C04_interrupt_at_call_refuted.
+Print Assumptions C04_interrupt_at_call.
